@@ -56,3 +56,18 @@ package cbor
 //@       len(unbox(callres("Value"), type([]any))) > 0 && dyn(unbox(callres("Value"), type([]any))[0]) == type(uint64) &&
 //@       uint64(id) == unbox(unbox(callres("Value"), type([]any))[0], type(uint64)) && id >= 0
 //@   ensures nonminimal: err == nil && len(cborData) >= 2 && (cborData[0] < 128 || cborData[0] > 151) ==> called(Decode)
+
+// C07 (arithmetic kernel): header sizes. The size of the minimal-form array header for a count, and
+// the size of the header actually present in the bytes (any definite form).
+//@ spec func minHdrLen(n int) uint32 = ite(n < 24, uint32(1), ite(n < 256, uint32(2), ite(n < 65536, uint32(3), uint32(5))))
+//@ func ArrayHeaderSize(length) (r)
+//@   props C07
+//@   pure
+//@   ensures minimal: length >= 0 && length < 4294967296 ==> r == minHdrLen(length)
+
+//@ func cborArrayHeaderSizeFromBytes(data, offset) (n, err)
+//@   props C07
+//@   pure
+//@   requires nonneg: offset >= 0
+//@   ensures actual: err == nil ==> offset < len(data) && cborMajor(data[offset]) == 128 && cborAI(data[offset]) <= 27 && n == hdrLen(data[offset])
+//@   ensures total: offset < len(data) && cborMajor(data[offset]) == 128 && cborAI(data[offset]) <= 27 ==> err == nil
